@@ -9,14 +9,16 @@ from pywbem_mock import FakedWBEMConnection
 
 warnings.simplefilter('ignore')
 
-R = Run('association graphs over 13 classes (binary/ternary, key/non-key refs, sub-associations with restated and '
+R = Run('association graphs over 12 classes (binary/ternary, key/non-key refs, sub-associations with restated and '
         'inherited Association qualifier) in 3 namespaces: all 2-node pair graphs (5 assoc classes x 4 end-class '
-        'pairs x 5 namespace placements x 4 shapes; quick: those differing from the base graph in <= 1 factor), mixed/ternary/multi-edge graphs, seeded '
-        'random graphs of 6..12 nodes and one 30-node graph, NULL ends, dangling ends, create/modify/delete '
-        'sequences of a non-key association over 5 nodes; every node, every association instance and a missing '
-        'object as source x all (ResultClass, Role) and all filter tuples with <= 2 of the 4 associator filters set '
-        '(+ seeded 3/4-filter tuples; thorough: full product on core graphs), values = related/unrelated/'
-        'differently-cased/non-existing names; Open/Pull and Iter variants; class level: 13 classes x filter tuples')
+        'pairs x 5 namespace placements x 4 shapes; quick: those differing from the base graph in <= 1 factor + '
+        'some cross-namespace 2-factor ones), mixed/ternary/multi-edge/same-id graphs, seeded random graphs of '
+        '6..12 nodes and one 30-node graph, NULL ends, dangling ends, create/modify/delete sequences of a non-key '
+        'association over 5 nodes in 3 namespaces (quick: 14 of 200); every node, every association instance and a '
+        'missing object as source x all (ResultClass, Role) and all filter tuples with <= 2 of the 4 associator '
+        'filters set (+ seeded 3/4-filter tuples; thorough: full product on 6 core graphs; random graphs: seeded '
+        'tuples only), values = related/unrelated/differently-cased/non-existing names; Open/Pull and Iter '
+        'variants; class level: 14 target names x filter tuples with <= 2 filters set + seeded deeper ones')
 
 NSS = ('root/a', 'root/b', 'root/c')
 MOF = '''
